@@ -68,8 +68,14 @@ def extract(config='pinned', include_root=None, tu=None):
     key = tree_hash(include_root, [config, flags, tu_h, tool_h])
     os.makedirs(CACHE, exist_ok=True)
     scratch = not os.path.abspath(include_root).startswith(os.path.abspath(REPO) + os.sep)
-    out = os.path.join(CACHE, '%s_%s_%s.json' % ('scratch' if scratch else 'facts', config, key))
+    # scratch fact bases (mutants, other revisions) are private to the process: concurrent thorough runs of
+    # different properties must not delete each other's files in drop_scratch()
+    out = os.path.join(CACHE, '%s_%s_%s.json' % ('scratch_%d' % os.getpid() if scratch else 'facts', config, key))
     if os.path.exists(out) and os.path.getsize(out) > 0:
+        try:
+            os.utime(out, None)   # in use: keep it out of the age-based clean-up of concurrent runs
+        except OSError:
+            pass
         return out
     tmp = out + '.tmp.%d' % os.getpid()
     cmd = [TOOL, '--root=' + include_root, '--out=' + tmp, tu, '--'] + flags + ['-resource-dir', resource_dir()]
@@ -107,10 +113,13 @@ def drop_scratch():
     for p in list(_FACTS_MEMO):
         if os.path.basename(p).startswith('scratch_'):
             del _FACTS_MEMO[p]
+    mine = 'scratch_%d_' % os.getpid()
     try:
+        now = time.time()
         for n in os.listdir(CACHE):
-            if n.startswith('scratch_'):
-                os.unlink(os.path.join(CACHE, n))
+            q = os.path.join(CACHE, n)
+            if n.startswith(mine) or (n.startswith('scratch_') and now - os.path.getmtime(q) > 2 * 3600):
+                os.unlink(q)
     except OSError:
         pass
 
